@@ -230,6 +230,20 @@ def oracle(spec):
         return fails
     ref = list(pairs)
     _check_state(m, ref, pool, "BiMap.__init__", fails)
+    if not fails and pairs:
+        # the map owns its tables: the mapping it was built from, and a second map built from the same mapping
+        # object, are not affected by later operations on it (and the other way round)
+        from hugr.utils import BiMap
+
+        src = dict(pairs)
+        keep = dict(src)
+        m1, m2 = BiMap(src), BiMap(src)
+        for op in spec["ops"]:
+            _apply(m1, op)
+        if src != keep:
+            fails.append(Failure("BiMap.__init__", "operations-on-the-map-change-the-mapping-it-was-built-from", ""))
+        else:
+            _check_state(m2, list(pairs), pool, "BiMap.__init__ (second map from the same mapping)", fails)
     for op in spec["ops"]:
         if fails:
             break
